@@ -224,13 +224,50 @@ func genC02OpsSeed(t *rapid.T, maxOps int, kinds []string, seedFn func(*mtree)) 
 				op.Name = ""
 			}
 		}
+		// sandwich: the same read-only probe of an affected directory or name before and after a mutation
+		// (what a cache that misses an invalidation gets wrong)
+		var probe *c02Op
+		switch op.Kind {
+		case "create", "mkdir", "symlink", "remove", "rmdir", "rename":
+			if hasKind(kinds, "readdir") && rapid.IntRange(0, 9).Draw(t, "sandwich") < 4 {
+				pd, pn := op.Dir, op.Name
+				if op.Kind == "rename" && rapid.Bool().Draw(t, "probe_dst") {
+					pd, pn = op.Dir2, op.Name2
+				}
+				switch pick(t, "probekind", "readdir", "readdirplus", "lookup", "getattr") {
+				case "readdir":
+					probe = &c02Op{Kind: "readdir", Dir: pd}
+				case "readdirplus":
+					probe = &c02Op{Kind: "readdirplus", Dir: pd}
+				case "lookup":
+					probe = &c02Op{Kind: "lookup", Dir: pd, Name: pn}
+				default:
+					probe = &c02Op{Kind: "getattr", Dir: pd, Name: pn}
+				}
+			}
+		}
+		if probe != nil {
+			ops = append(ops, *probe)
+		}
 		v := modelVerdict(m, op)
 		if v.exp == expOK {
 			v.apply()
 		}
 		ops = append(ops, op)
+		if probe != nil {
+			ops = append(ops, *probe)
+		}
 	}
 	return ops
+}
+
+func hasKind(kinds []string, k string) bool {
+	for _, x := range kinds {
+		if x == k {
+			return true
+		}
+	}
+	return false
 }
 
 var c02Kinds = []string{"lookup", "lookup", "create", "create", "mkdir", "mkdir", "symlink", "remove", "rmdir", "rename", "rename", "readdir", "readdirplus", "getattr", "readlink"}
